@@ -39,6 +39,13 @@ def e2e_case(rec):
             inline = "{environment: {" + ", ".join(f'{e}: "{val(e, tc["env"][e])}"' for e in ("X", "Y") if tc["env"][e] != "U") + "}}"
         eff = {e: highest([cli["env"][e], tc["env"][e], doc["env"][e], fmt["env"][e]]) for e in ("X", "Y")}
         return fm, inline, [], "printf 'X=%s Y=%s\\n' \"$X\" \"$Y\"", [f"X={val('X', eff['X'])} Y={val('Y', eff['Y'])}"], 0
+    # two flags at once (only the command line layer): they must not cancel each other
+    if not env_set and set_keys == {"output_stream", "keep_crlf"} and all(sc(l, k2) == "U" for l in (tc, doc, fmt) for k2 in set_keys) \
+            and sc(cli, "output_stream") == "B":
+        crlf = sc(cli, "keep_crlf")
+        flags = ["--combine-output"] + {"A": ["--keep-output-crlf"], "B": ["--no-keep-output-crlf"]}[crlf]
+        exp = ["o\\r (escaped)", "e\\r (escaped)"] if crlf == "A" else ["o", "e"]
+        return [], "", flags, "printf 'o\\r\\n'; printf 'e\\r\\n' >&2", exp, 0
     if env_set or len(set_keys) != 1:
         return None
     k = next(iter(set_keys))
@@ -103,6 +110,12 @@ def run_e2e(rec):
         scenario.kill_group(pid)
         if code != want_exit:
             return f"fail(exit {code}, expected {want_exit})"
+        if len(flags) == 2 and "--cram-compat" not in flags:
+            # the order in which two flags are given does not matter
+            code2, out2, err2, wall2, pid2 = scenario.run_scrut([path] + flags[::-1], root)
+            scenario.kill_group(pid2)
+            if code2 != want_exit:
+                return f"fail(exit {code2} with the flags in the other order, expected {want_exit})"
         if want_exit != 0:
             return "ok"
         # the same layers must be in effect in `scrut update`: a document that passes `scrut test <flags>` is left as it is
